@@ -714,6 +714,7 @@ func withField(m map[string]bool, n string) map[string]bool {
 func init() {
 	register("C01", "C02.R2", ruleC02R2) // "never lost": the chunk confirmed (and deleted) is the chunk the ACK names
 	register("C01", "C11.R1", ruleC11R1) // "never lost": every stream is written into a chunk exactly once
+	register("C05", "C11.R1", ruleC11R1) // after seed c05h: chunks leave the chunk maker in the order their streams arrived (the chunk returned is the one that was open)
 	register("C01", "C04.R1", ruleC04R1) // "never … altered": short writes
 	register("C01", "C04.R2", ruleC04R2) // "never … altered": atomic publish
 	register("C01", "C04.R5", ruleC04R5) // "never … altered": a failed write is not reported as saved
